@@ -84,10 +84,10 @@ Qed.
 
 Theorem limit_displaces_lowest_priced limit l nonexec kept over y :
   apply_limits limit (sort_desc l) nonexec = (kept, over) ->
-  In (hash y, RLimitExecTail) over -> In y (skipn limit (sort_desc l)) ->
+  In y (skipn limit (sort_desc l)) ->
   forall x, In x kept -> pgp_of y <= pgp_of x.
 Proof.
-  unfold apply_limits. intros H _ Hy x Hx.
+  unfold apply_limits. intros H Hy x Hx.
   destruct (Nat.ltb limit (length (sort_desc l))) eqn:E.
   - inversion H; subst. exact (sorted_split_le _ _ _ _ (sort_desc_sorted l) Hx Hy).
   - apply Nat.ltb_ge in E. rewrite skipn_all2 in Hy by auto. destruct Hy.
